@@ -12,7 +12,8 @@
      okey o         (method, path key) of a documented operation;
      nkey s         (method, pattern with {*name} rewritten to {name}) of a mounted one;
      uses d v       some mounted operation uses the verb v;
-     no_wild_files  no file server path holds a wildcard (single files only). *)
+     no_wild_files  no file server path holds a wildcard (single files only: a directory
+                    file server is also mounted on GET <dir>/, which no document lists). *)
 From OpenAPI Require Import Model Generated_verbs Run Lemmas.
 From Coq Require Import Permutation.
 
@@ -48,13 +49,23 @@ Theorem doc_ops_connect_refuted :
 Proof. exact connect_refuted_l. Qed.
 Print Assumptions doc_ops_connect_refuted.
 
-(* finding: a directory file server ("/1/{*2}"): the mount of the directory itself is
-   in neither document, and the OpenAPI 3 key keeps the {*name} form, which no mounted
-   operation has after rewriting *)
+(* with no hypothesis at all: whatever is documented is mounted, and every path key is a
+   path template (no {*name}); since 09d8d6c this includes wildcard file servers *)
+Theorem doc_ops_subset_server_ops d v k : In (v, k) (map okey (doc3_ops d)) -> In (v, k) (map nkey (server_ops d)).
+Proof. exact (doc3_sub d v k). Qed.
+Print Assumptions doc_ops_subset_server_ops.
+
+Theorem doc_ops_keys_are_path_templates d v k : In (v, k) (map okey (doc3_ops d)) -> star_free k = true.
+Proof. exact (doc3_star_free d v k). Qed.
+Print Assumptions doc_ops_keys_are_path_templates.
+
+(* finding: a directory file server ("/1/{*2}") is mounted twice, GET /1/ and
+   GET /1/{*2}; the first mount is in neither document (the second is in both, as
+   /1/{2}). This is why the equalities above keep the hypothesis no_wild_files. *)
 Theorem doc_ops_dir_file_server_refuted :
   exists d, ~ uses d CONNECT /\ ~ no_wild_files d /\
     (exists k, In k (map nkey (server_ops d)) /\ ~ In k (map okey (doc3_ops d)) /\ ~ In k (map okey (doc2_ops d))) /\
-    (exists k, In k (map okey (doc3_ops d)) /\ ~ In k (map nkey (server_ops d)) /\ star_free (snd k) = false).
+    (exists k, In k (map nkey (server_ops d)) /\ In k (map okey (doc3_ops d)) /\ In k (map okey (doc2_ops d)) /\ star_free (snd k) = true).
 Proof. exact dir_refuted_l. Qed.
 Print Assumptions doc_ops_dir_file_server_refuted.
 
@@ -69,6 +80,14 @@ Theorem doc2_ops_eq_server_ops_partial d : no_wild_files d -> ~ uses d CONNECT -
   forall v k, In (v, k) (map okey (doc2_ops d)) <-> In (v, k) (map nkey (server_ops d)).
 Proof. exact (doc2_keys d). Qed.
 Print Assumptions doc2_ops_eq_server_ops_partial.
+
+Theorem doc2_ops_subset_server_ops d v k : In (v, k) (map okey (doc2_ops d)) -> In (v, k) (map nkey (server_ops d)).
+Proof. exact (doc2_sub d v k). Qed.
+Print Assumptions doc2_ops_subset_server_ops.
+
+Theorem doc2_ops_keys_are_path_templates d v k : In (v, k) (map okey (doc2_ops d)) -> star_free k = true.
+Proof. exact (doc2_star_free d v k). Qed.
+Print Assumptions doc2_ops_keys_are_path_templates.
 
 Theorem doc2_ops_permutation_partial d : no_wild_files d -> ~ uses d CONNECT -> ~ uses d TRACE -> NoDup (map nkey (server_ops d)) ->
   Permutation (map okey (doc2_ops d)) (map nkey (server_ops d)).
